@@ -87,6 +87,15 @@ def run_one(mod, case, ctx):
     res.setdefault("nontrivial", False)
     res["id"] = case.get("id")
     res["sig"] = case.get("sig", case.get("id"))
+    if case.get("pyopt"):
+        if not sys.flags.optimize:
+            res = {"outcome": "HARNESS-ERROR", "error": "case marked python -O ran in an interpreter without -O", "violations": [], "counters": {}, "nontrivial": False,
+                   "id": case.get("id"), "sig": case.get("sig")}
+        res.setdefault("counters", {})["cases_under_python_O"] = 1
+        for v in res.get("violations", []):
+            v["what"] = "%s [interpreter started with -O: assert statements are compiled away]" % v.get("what", "")
+        if "sigs" in res:
+            res["sigs"] = [list(sg) + ["python -O"] for sg in res["sigs"]]
     res["t"] = round(time.time() - t0, 4)
     return res
 
@@ -118,21 +127,27 @@ def worker_main(argv):
 def _spawn(modname, cases, tier, seed, nworkers, timeout):
     tmp = tempfile.mkdtemp(prefix="pysaml2-verif-run-")
     procs = []
-    n = max(1, min(nworkers, len(cases)))
-    shards = [cases[i::n] for i in range(n)]
+    plain = [c for c in cases if not c.get("pyopt")]
+    opt = [c for c in cases if c.get("pyopt")]
+    n = max(1, min(nworkers, len(plain)))
+    shards = [(plain[i::n], []) for i in range(n)] if plain else []
+    if opt:
+        # the same workload in interpreters started with -O (assert statements compiled away): a sample of the cases, own workers
+        m = max(1, min(max(2, nworkers // 3), len(opt)))
+        shards += [(opt[i::m], ["-O"]) for i in range(m)]
     envp = dict(os.environ)
     envp["PYTHONPATH"] = env.VERIF + os.pathsep + envp.get("PYTHONPATH", "")
     envp["PYTHONDONTWRITEBYTECODE"] = "1"
     envp.setdefault("PYTHONHASHSEED", "0")
     envp["VERIF_TMP"] = tmp
     envp["TMPDIR"] = tmp
-    for i, sh in enumerate(shards):
+    for i, (sh, pyflags) in enumerate(shards):
         sp = os.path.join(tmp, "shard-%d.json" % i)
         op = os.path.join(tmp, "out-%d.jsonl" % i)
         with open(sp, "w") as f:
             json.dump(sh, f)
         lp = open(os.path.join(tmp, "log-%d.txt" % i), "w")
-        p = subprocess.Popen([sys.executable, "-c",
+        p = subprocess.Popen([sys.executable] + pyflags + ["-c",
                               "import sys; from vlib import runner; runner.worker_main(sys.argv[1:])",
                               modname, sp, op, tier, str(seed), str(i)],
                              env=envp, cwd=tmp, stdout=lp, stderr=subprocess.STDOUT)
@@ -222,9 +237,10 @@ def _main(modname, argv=None):
         with open(args.replay) as f:
             rp = json.load(f)
         want_hs = str(rp.get("seed", seed))
-        if os.environ.get("PYTHONHASHSEED", "0") != want_hs and not os.environ.get("VERIF_REEXEC"):
+        want_opt = bool(rp.get("case", {}).get("pyopt"))
+        if (os.environ.get("PYTHONHASHSEED", "0") != want_hs or want_opt != bool(sys.flags.optimize)) and not os.environ.get("VERIF_REEXEC"):
             # the interpreter's hash seed follows the workload seed (./check); replay under the one the case was found with
-            os.execve(sys.executable, [sys.executable, "-W", "ignore", "-c", "import sys; from vlib import runner; sys.exit(runner.main(sys.argv[1], sys.argv[2:]))",
+            os.execve(sys.executable, [sys.executable] + (["-O"] if want_opt else []) + ["-W", "ignore", "-c", "import sys; from vlib import runner; sys.exit(runner.main(sys.argv[1], sys.argv[2:]))",
                                        modname] + list(argv if argv is not None else sys.argv[1:]),
                       dict(os.environ, PYTHONHASHSEED=want_hs, VERIF_SEED=want_hs, VERIF_REEXEC="1"))
         ctx = Ctx(rp.get("tier", tier), rp.get("seed", seed))
@@ -252,6 +268,20 @@ def _main(modname, argv=None):
         # between calls): every non-zero seed gives the workers another order and another partition of the same case list
         import random as _random
         _random.Random(seed).shuffle(cases)
+    pyopt = getattr(mod, "PYOPT", "sample")
+    if pyopt != "none" and os.environ.get("VERIF_PYOPT", "1") != "0" and not args.inproc:
+        # environment dimension: python -O.  A sample of the cases (every k-th of the seed's order) runs once more in -O interpreters.
+        want = len(cases) if pyopt == "all" else (min(len(cases), max(40, len(cases) // 8)) if tier == "quick" else max(40, len(cases) // 3))
+        step = max(1, len(cases) // max(1, want))
+        clones = []
+        for c in cases[(seed % step)::step]:
+            k = dict(c)
+            k["id"] = "%s|python-O" % c["id"]
+            k["sig"] = list(c.get("sig") or [c["id"]]) + ["python -O"]
+            k["pyopt"] = 1
+            clones.append(k)
+            by_id[k["id"]] = k
+        cases = cases + clones
     timeout = int(os.environ.get("VERIF_TIMEOUT", "0")) or (900 if tier == "quick" else 3 * 3600)
     if args.inproc:
         ctx = Ctx(tier, seed)
